@@ -36,20 +36,23 @@ package routing
 //@ prop C08 C10
 //@ check lockset bounds
 //@ modifies *
-//@ requires forall a in 0..len(t.routes[netKey(route.Network)]): forall b in 0..len(t.routes[netKey(route.Network)]): a != b ==> t.routes[netKey(route.Network)][a].OriginAgent != t.routes[netKey(route.Network)][b].OriginAgent
+//@ after call String let k = $ret
 //@ loop 0 invariant -1 <= rangeindex && rangeindex < len(route.Path) && forall j in 0..rangeindex+1: route.Path[j] != t.localID
 //@ loop 1 invariant -1 <= rangeindex && rangeindex < len(existing) && forall j in 0..rangeindex+1: existing[j].OriginAgent != route.OriginAgent
 //@ ensures[C10] route != nil && route.Network != nil && (exists j in 0..len(route.Path): old(route.Path[j]) == t.localID) ==> !result
 //@ ensures[C10] route != nil && route.Network != nil && (exists j in 0..len(route.Path): old(route.Path[j]) == t.localID) ==> t.routes == old(t.routes) && len(t.routes[netKey(route.Network)]) == old(len(t.routes[netKey(route.Network)]))
-//@ ensures[C08,C10] result ==> forall a in 0..len(t.routes[netKey(route.Network)]): forall b in a..len(t.routes[netKey(route.Network)]): t.routes[netKey(route.Network)][a].Metric <= t.routes[netKey(route.Network)][b].Metric
-//@ ensures[C10] result ==> exists j in 0..len(t.routes[netKey(route.Network)]): t.routes[netKey(route.Network)][j].OriginAgent == route.OriginAgent && t.routes[netKey(route.Network)][j].Metric == route.Metric && t.routes[netKey(route.Network)][j].NextHop == route.NextHop && t.routes[netKey(route.Network)][j].Sequence == route.Sequence
-//@ ensures[C10] result ==> forall j in 0..old(len(t.routes[netKey(route.Network)])): old(t.routes[netKey(route.Network)][j].OriginAgent) == route.OriginAgent ==> route.Sequence > old(t.routes[netKey(route.Network)][j].Sequence) || (route.Sequence == old(t.routes[netKey(route.Network)][j].Sequence) && route.Metric < old(t.routes[netKey(route.Network)][j].Metric))
+//@ ensures[C08,C10] result ==> forall a in 0..len(t.routes[k]): forall b in a..len(t.routes[k]): t.routes[k][a].Metric <= t.routes[k][b].Metric
+//@ ensures[C10] result ==> exists j in 0..len(t.routes[k]): t.routes[k][j].OriginAgent == route.OriginAgent && t.routes[k][j].Metric == route.Metric && t.routes[k][j].NextHop == route.NextHop && t.routes[k][j].Sequence == route.Sequence
+//@ at[C10] call (*Route).Clone#0 assert r.OriginAgent == route.OriginAgent && existing[i] == r && (forall j in 0..i: existing[j].OriginAgent != route.OriginAgent)
+//@ at[C10] call (*Route).Clone#0 assert route.Sequence > r.Sequence || (route.Sequence == r.Sequence && route.Metric < r.Metric)
+//@ at[C10] call (*Route).Clone#1 assert forall j in 0..len(existing): existing[j].OriginAgent != route.OriginAgent
+//@ note update rule: the first Clone is the replacement of the first stored entry r of the same origin and happens only for a newer sequence or an equal sequence with a strictly lower metric; the second Clone is the insertion, reached only when no stored entry has that origin
 
 //@ func (*Table).lookupUnlocked
 //@ prop C08
 //@ check lockset bounds
 //@ requires held(t.mu)
-//@ requires forall k string: forall j in 0..len(t.routes[k]): has(t.routes, k) ==> t.routes[k][j] != nil && t.routes[k][j].Network != nil
+//@ requires forall k string: has(t.routes, k) ==> forall j in 0..len(t.routes[k]): t.routes[k][j] != nil && t.routes[k][j].Network != nil
 //@ loop 0 invariant bestPrefixLen >= -1 && (bestRoute == nil <==> bestPrefixLen == -1)
 //@ loop 0 invariant forall k string: visited(k) && has(t.routes, k) && len(t.routes[k]) > 0 && ipInNet(t.routes[k][0].Network, ip) ==> maskOnes(t.routes[k][0].Network.Mask) <= bestPrefixLen
 //@ loop 0 invariant bestRoute != nil ==> exists k string: has(t.routes, k) && len(t.routes[k]) > 0 && t.routes[k][0] == bestRoute && ipInNet(bestRoute.Network, ip) && maskOnes(bestRoute.Network.Mask) == bestPrefixLen
@@ -58,3 +61,155 @@ package routing
 //@ ensures result != nil ==> ipInNet(chosen.Network, ip) && exists k string: has(t.routes, k) && len(t.routes[k]) > 0 && t.routes[k][0] == chosen
 //@ ensures result != nil ==> forall k string: has(t.routes, k) && len(t.routes[k]) > 0 && ipInNet(t.routes[k][0].Network, ip) ==> maskOnes(t.routes[k][0].Network.Mask) <= maskOnes(chosen.Network.Mask)
 //@ ensures result != nil ==> result.Metric == chosen.Metric && result.NextHop == chosen.NextHop && result.OriginAgent == chosen.OriginAgent
+
+//@ func (*Table).RemoveRoutesFromPeer
+//@ prop C10
+//@ check lockset bounds
+//@ modifies *
+//@ loop 1 invariant -1 <= rangeindex && rangeindex < len(routes) && len(filtered) <= rangeindex + 1 && base(filtered) == base(routes) && offset(filtered) == offset(routes) && cap(filtered) == cap(routes)
+//@ loop 1 invariant forall j in 0..len(filtered): filtered[j].NextHop != peerID
+//@ note per key: what is kept has a next hop other than the disconnected peer (inner loop invariant, unbounded); that every other entry is kept, and the table-wide statement over all keys, are not claimed (aliasing between the in-place filter and other keys' backing arrays is not expressible without a disjointness representation invariant)
+
+//@ func (*Table).CleanupStaleRoutes
+//@ prop C10
+//@ check lockset bounds
+//@ modifies *
+//@ loop 1 invariant -1 <= rangeindex && rangeindex < len(routes) && len(kept) <= rangeindex + 1
+//@ loop 1 invariant forall j in 0..rangeindex+1: routes[j].OriginAgent == t.localID ==> exists i in 0..len(kept): kept[i] == routes[j]
+//@ note per key: every locally originated route of the key is in the kept list (never removed by cleanup)
+
+// ======== C09 / C10: domain, forward-key and agent tables (same representation: per key, sorted by metric) ========
+
+//@ guarded DomainTable.mu: exactRoutes, wildcardBase
+//@ guarded ForwardTable.mu: routes
+//@ guarded AgentTable.mu: routes
+
+//@ func (*DomainRoute).Clone
+//@ prop C09 C10
+//@ check bounds alloc
+//@ requires r != nil
+//@ ensures result != nil && result != r && !old(allocated(result))
+//@ ensures result.Pattern == r.Pattern && result.IsWildcard == r.IsWildcard && result.BaseDomain == r.BaseDomain
+//@ ensures result.NextHop == r.NextHop && result.OriginAgent == r.OriginAgent && result.Metric == r.Metric && result.Sequence == r.Sequence
+
+//@ func (*ForwardRoute).Clone
+//@ prop C09 C10
+//@ check bounds alloc
+//@ requires r != nil
+//@ ensures result != nil && result != r && !old(allocated(result))
+//@ ensures result.Key == r.Key && result.Target == r.Target
+//@ ensures result.NextHop == r.NextHop && result.OriginAgent == r.OriginAgent && result.Metric == r.Metric && result.Sequence == r.Sequence
+
+//@ func (*AgentRoute).Clone
+//@ prop C09 C10
+//@ check bounds alloc
+//@ requires r != nil
+//@ ensures result != nil && result != r && !old(allocated(result))
+//@ ensures result.AgentID == r.AgentID
+//@ ensures result.NextHop == r.NextHop && result.OriginAgent == r.OriginAgent && result.Metric == r.Metric && result.Sequence == r.Sequence
+
+//@ func (*DomainTable).sortRoutesInMap
+//@ prop C09 C10
+//@ trusted sort.Slice with the metric comparison yields an ascending-metric permutation of the same slice (A8)
+//@ modifies contents(routeMap[key])
+//@ ensures len(routeMap[key]) == old(len(routeMap[key])) && routeMap[key] == old(routeMap[key])
+//@ ensures forall a in 0..len(routeMap[key]): exists b in 0..len(routeMap[key]): routeMap[key][b] == old(routeMap[key][a])
+//@ ensures forall a in 0..len(routeMap[key]): forall b in a..len(routeMap[key]): routeMap[key][a].Metric <= routeMap[key][b].Metric
+
+//@ func (*ForwardTable).sortRoutes
+//@ prop C09 C10
+//@ trusted sort.Slice with the metric comparison yields an ascending-metric permutation of the same slice (A8)
+//@ modifies contents(t.routes[key])
+//@ ensures len(t.routes[key]) == old(len(t.routes[key])) && t.routes[key] == old(t.routes[key])
+//@ ensures forall a in 0..len(t.routes[key]): exists b in 0..len(t.routes[key]): t.routes[key][b] == old(t.routes[key][a])
+//@ ensures forall a in 0..len(t.routes[key]): forall b in a..len(t.routes[key]): t.routes[key][a].Metric <= t.routes[key][b].Metric
+
+//@ func (*AgentTable).sortRoutes
+//@ prop C09 C10
+//@ trusted sort.Slice with the metric comparison yields an ascending-metric permutation of the same slice (A8)
+//@ modifies contents(t.routes[key])
+//@ ensures len(t.routes[key]) == old(len(t.routes[key])) && t.routes[key] == old(t.routes[key])
+//@ ensures forall a in 0..len(t.routes[key]): exists b in 0..len(t.routes[key]): t.routes[key][b] == old(t.routes[key][a])
+//@ ensures forall a in 0..len(t.routes[key]): forall b in a..len(t.routes[key]): t.routes[key][a].Metric <= t.routes[key][b].Metric
+
+//@ func (*DomainTable).routeMapAndKey
+//@ prop C09
+//@ ensures key == ite(isWildcard, lower(baseDomain), lower(pattern))
+//@ ensures routeMap == ite(isWildcard, t.wildcardBase, t.exactRoutes)
+
+//@ func (*DomainTable).AddRoute
+//@ prop C09 C10
+//@ check lockset bounds
+//@ modifies *
+//@ loop 0 invariant -1 <= rangeindex && rangeindex < len(route.Path) && forall j in 0..rangeindex+1: route.Path[j] != t.localID
+//@ ensures[C10] route != nil && route.Pattern != "" && (exists j in 0..len(route.Path): old(route.Path[j]) == t.localID) ==> !result
+//@ after call sortRoutesInMap let tm = $1
+//@ after call sortRoutesInMap let k = $2
+//@ loop 1 invariant -1 <= rangeindex && rangeindex < len(targetMap[key])
+//@ ensures[C09,C10] result ==> forall a in 0..len(tm[k]): forall b in a..len(tm[k]): tm[k][a].Metric <= tm[k][b].Metric
+//@ ensures[C10] result ==> exists j in 0..len(tm[k]): tm[k][j].OriginAgent == route.OriginAgent && tm[k][j].Metric == route.Metric && tm[k][j].NextHop == route.NextHop && tm[k][j].Sequence == route.Sequence
+//@ ensures[C09] result ==> k == ite(route.IsWildcard, lower(route.BaseDomain), lower(route.Pattern)) && tm == ite(route.IsWildcard, t.wildcardBase, t.exactRoutes)
+//@ at[C10] call (*DomainRoute).Clone#0 assert r.OriginAgent == route.OriginAgent && (route.Sequence > r.Sequence || (route.Sequence == r.Sequence && route.Metric < r.Metric))
+
+//@ func (*ForwardTable).AddRoute
+//@ prop C09 C10
+//@ check lockset bounds
+//@ modifies *
+//@ loop 0 invariant -1 <= rangeindex && rangeindex < len(route.Path) && forall j in 0..rangeindex+1: route.Path[j] != t.localID
+//@ ensures[C10] route != nil && route.Key != "" && (exists j in 0..len(route.Path): old(route.Path[j]) == t.localID) ==> !result
+//@ after call sortRoutes let k = $1
+//@ loop 1 invariant -1 <= rangeindex && rangeindex < len(t.routes[route.Key])
+//@ ensures[C09,C10] result ==> k == route.Key
+//@ ensures[C09,C10] result ==> forall a in 0..len(t.routes[k]): forall b in a..len(t.routes[k]): t.routes[k][a].Metric <= t.routes[k][b].Metric
+//@ ensures[C10] result ==> exists j in 0..len(t.routes[k]): t.routes[k][j].OriginAgent == route.OriginAgent && t.routes[k][j].Metric == route.Metric && t.routes[k][j].NextHop == route.NextHop && t.routes[k][j].Sequence == route.Sequence
+//@ at[C10] call (*ForwardRoute).Clone#0 assert r.OriginAgent == route.OriginAgent && (route.Sequence > r.Sequence || (route.Sequence == r.Sequence && route.Metric < r.Metric))
+
+//@ func (*AgentTable).AddRoute
+//@ prop C09 C10
+//@ check lockset bounds
+//@ modifies *
+//@ loop 0 invariant -1 <= rangeindex && rangeindex < len(route.Path) && forall j in 0..rangeindex+1: route.Path[j] != t.localID
+//@ ensures[C10] route != nil && (exists j in 0..len(route.Path): old(route.Path[j]) == t.localID) ==> !result
+//@ after call sortRoutes let k = $1
+//@ loop 1 invariant -1 <= rangeindex && rangeindex < len(t.routes[route.AgentID])
+//@ ensures[C09,C10] result ==> k == route.AgentID
+//@ ensures[C09,C10] result ==> forall a in 0..len(t.routes[k]): forall b in a..len(t.routes[k]): t.routes[k][a].Metric <= t.routes[k][b].Metric
+//@ ensures[C10] result ==> exists j in 0..len(t.routes[k]): t.routes[k][j].OriginAgent == route.OriginAgent && t.routes[k][j].Metric == route.Metric && t.routes[k][j].NextHop == route.NextHop && t.routes[k][j].Sequence == route.Sequence
+//@ at[C10] call (*AgentRoute).Clone#0 assert r.OriginAgent == route.OriginAgent && r.NextHop == route.NextHop && (route.Sequence > r.Sequence || (route.Sequence == r.Sequence && route.Metric < r.Metric))
+//@ note the agent-presence table keys entries by origin AND next hop (the code's rule), so several next hops for one agent coexist
+
+// ---- lookups (C09) ----
+// Each lookup returns (a copy of) the FIRST entry of the selected key's list; with the lists kept
+// sorted by ascending metric (postcondition of every AddRoute above) that is the lowest metric.
+
+//@ func (*DomainTable).lookupUnlocked
+//@ prop C09
+//@ check lockset bounds
+//@ requires held(t.mu)
+//@ requires forall k string: has(t.exactRoutes, k) && len(t.exactRoutes[k]) > 0 ==> t.exactRoutes[k][0] != nil
+//@ requires forall k string: has(t.wildcardBase, k) && len(t.wildcardBase[k]) > 0 ==> t.wildcardBase[k][0] != nil
+//@ after call Clone let chosen = $0
+//@ after call strings.Index let idx = $ret
+//@ ensures has(t.exactRoutes, lower(domain)) && len(t.exactRoutes[lower(domain)]) > 0 ==> result != nil && chosen == t.exactRoutes[lower(domain)][0]
+//@ ensures !(has(t.exactRoutes, lower(domain)) && len(t.exactRoutes[lower(domain)]) > 0) && result != nil ==> idx > 0 && idx < len(lower(domain)) - 1 && lower(domain)[idx] == '.' && (forall j in 0..idx: lower(domain)[j] != '.')
+//@ ensures !(has(t.exactRoutes, lower(domain)) && len(t.exactRoutes[lower(domain)]) > 0) && result != nil ==> has(t.wildcardBase, lower(domain)[idx+1:]) && chosen == t.wildcardBase[lower(domain)[idx+1:]][0]
+//@ ensures !(has(t.exactRoutes, lower(domain)) && len(t.exactRoutes[lower(domain)]) > 0) && idx > 0 && idx < len(lower(domain)) - 1 && has(t.wildcardBase, lower(domain)[idx+1:]) && len(t.wildcardBase[lower(domain)[idx+1:]]) > 0 ==> result != nil
+//@ ensures result != nil ==> result.Metric == chosen.Metric && result.NextHop == chosen.NextHop && result.OriginAgent == chosen.OriginAgent && result.Pattern == chosen.Pattern
+
+//@ func (*ForwardTable).Lookup
+//@ prop C09
+//@ check lockset bounds
+//@ requires forall k string: has(t.routes, k) && len(t.routes[k]) > 0 ==> t.routes[k][0] != nil
+//@ after call Clone let chosen = $0
+//@ ensures has(t.routes, key) && len(t.routes[key]) > 0 ==> result != nil && chosen == t.routes[key][0]
+//@ ensures !(has(t.routes, key) && len(t.routes[key]) > 0) ==> result == nil
+//@ ensures result != nil ==> result.Metric == chosen.Metric && result.NextHop == chosen.NextHop && result.Key == chosen.Key
+
+//@ func (*AgentTable).Lookup
+//@ prop C09
+//@ check lockset bounds
+//@ requires has(t.routes, agentID) && len(t.routes[agentID]) > 0 ==> t.routes[agentID][0] != nil
+//@ after call Clone let chosen = $0
+//@ ensures has(t.routes, agentID) && len(t.routes[agentID]) > 0 ==> result != nil && chosen == t.routes[agentID][0]
+//@ ensures !(has(t.routes, agentID) && len(t.routes[agentID]) > 0) ==> result == nil
+//@ ensures result != nil ==> result.Metric == chosen.Metric && result.NextHop == chosen.NextHop && result.AgentID == chosen.AgentID
